@@ -432,7 +432,7 @@ def run(ctx) -> Report:
     # the round trip through the tool as a user runs it (fresh `python -m replicat` processes, repository on disk, several
     # path arguments incl. spellings that are prefixes of one another), judged by an independent walker and an independent reader
     from harness import cli_hist
-    cli_hist.run_scenarios(ctx, rep, {'plain': ctx.scale(5, 50)}, CLI_MINE)
+    cli_hist.run_scenarios(ctx, rep, {'plain': ctx.scale(5, 50), 'oserror': ctx.scale(3, 30)}, CLI_MINE)
     return rep
 
 
